@@ -22,7 +22,11 @@ def run(rep):
     rep.set('rule', 'an execution = one schedule with exactly one kill(victim, restart delay) action inserted at one scheduling point, run for '
             'restart delay + bound + 700 ms after the kill; distinct = distinct observable outcome per scenario')
 
+    silent = [{**s, 'dev_window': (0, 1600)} for s in fam if 'silent' in s['name']]
+    fam    = [s for s in fam if 'silent' not in s['name']]
+
     explore.explore(rep, 'kills-d0', fam, 0, bases, 'checks.oracles:oracle_c06', budget_s=900 if quick else 1700)
+    explore.explore(rep, 'silent-d1', silent, 1, bases, 'checks.oracles:oracle_c06', budget_s=900)
 
     if not quick:
         core = [s for s in fam if s['name'] in ('chain3/mid', 'tee/a', 'rejoin2/b1')]
